@@ -313,6 +313,15 @@ impl C06 {
             test_files.push((rel, None));
             rep.count("gen.test_file_broken", 1);
         }
+        // the --dir layout: <dir>/<name>.guard + <dir>/tests/<name>*.json (copies of the above)
+        if let Some(r0) = files.iter().find(|f| f.rel == rules[0]).cloned() {
+            files.push(FileSpec { rel: "dl/r0.guard".into(), ..r0 });
+        }
+        for (rel, _) in &test_files {
+            if let Some(t) = files.iter().find(|f| &f.rel == rel).cloned() {
+                files.push(FileSpec { rel: rel.replace("tests/", "dl/tests/r0_"), ..t });
+            }
+        }
         (wl.clone(), Scn6 { files, rules, data, cases, test_files })
     }
 
@@ -406,6 +415,14 @@ impl C06 {
         let mut out = Vec::new();
         for _ in 0..k {
             let fmt = *r.pick(&["single-line-summary", "json", "yaml", "junit"]);
+            if r.chance(1, 4) {
+                let mut argv = sv(&["cfn-guard", "test", "--dir", "@/dl", "-o", fmt]);
+                if r.chance(1, 2) {
+                    argv.push((*r.pick(&["-a", "-m"])).to_string());
+                }
+                out.push(Dlv { kind: format!("testdir-{fmt}"), argv, stdin: None, dir_mode: (*r.pick(&["shuffle", "desc", "asc"])).to_string(), dir_seed: r.next(), faults: FaultSpec::Off, extra: vec![], missing: vec![], rules_idx: vec![0], data_idx: (0..scn.test_files.len()).collect() });
+                continue;
+            }
             let which = r.below(3);
             let (target, idx): (String, Vec<usize>) = if which == 0 || scn.test_files.len() == 1 {
                 let i = r.usize(scn.test_files.len());
@@ -500,7 +517,7 @@ impl C06 {
         if !hard.is_empty() {
             rep.count("reach.hard_fault_reclassified_item", 1);
         }
-        let (allowed, desc) = if d.kind.starts_with("test-") { self.model_test(obs, scn, d, &hard) } else { self.model_validate(obs, d, &hard, scn) };
+        let (allowed, desc) = if d.kind.starts_with("test") { self.model_test(obs, scn, d, &hard) } else { self.model_validate(obs, d, &hard, scn) };
         rep.classes.push(format!("{}|{}|{}", d.kind.split('-').next().unwrap_or(""), desc, class));
         rep.count("judged", 1);
         if allowed.contains(&class.as_str()) {
@@ -596,7 +613,7 @@ impl Check for C06 {
                         }
                     }
                     // drop test files / cases when the delivery is a validate (and vice versa nothing)
-                    if !md.kind.starts_with("test-") {
+                    if !md.kind.starts_with("test") {
                         let c = Scn6 { files: mscn.files.iter().filter(|f| !f.rel.starts_with("tests/")).cloned().collect(), cases: vec![], test_files: vec![], ..mscn.clone() };
                         if self.check_one(w, &c, &md, &mut mrep).map(|(s, _)| s) == Some(sig.clone()) {
                             mscn = c;
